@@ -150,7 +150,9 @@ def classify(div, ctx=None):
     elif what == "ext":
         last = ctx.get("last_op", "")
         props |= {"C18"} if last == "extract" else {"C19", "C15"}
-        if last == "extract":
+        # (bytes left at a destination by an extraction that FAILED are C18's subject, not C01's:
+        # C01 speaks about what a successful checked retrieval hands out)
+        if last == "extract" and ctx.get("last_res_ok"):
             props.add("C01")
     elif what == "tmp":
         props |= {"C14"}
